@@ -201,8 +201,98 @@ fn sequences(alpha: &[Ev], len: usize) -> impl Iterator<Item = Case> + '_ {
     })
 }
 
+// ------------------------------------------------------------------ two sessions interleaved
+// Two sessions run short programs of {select d0, select d1, disconnect} at once under the baton scheduler (a switch is
+// possible at every lock acquisition of the key maps); when both are done, `$connections` of each database must equal the
+// number of sessions that select it now.
+
+#[derive(Clone, Debug, Serialize, Deserialize, PartialEq)]
+pub enum CEv {
+    Use { db: usize },
+    Disconnect,
+}
+
+#[derive(Clone, Debug, Serialize, Deserialize)]
+pub struct CCase {
+    pub programs: Vec<Vec<CEv>>,
+    pub schedule: Vec<u16>,
+}
+
+fn ccase_strategy() -> impl Strategy<Value = CCase> {
+    let ev = prop_oneof![3 => (0..2usize).prop_map(|db| CEv::Use { db }), 1 => Just(CEv::Disconnect)];
+    (prop::collection::vec(prop::collection::vec(ev, 1..4), 2..4), prop::collection::vec(prop_oneof![2 => Just(0u16), 3 => any::<u16>()], 0..30)).prop_map(|(programs, schedule)| CCase { programs, schedule })
+}
+
+pub fn run_conc(ctx: &Ctx, case: &CCase) -> Outcome {
+    let dir = ctx.fresh_dir();
+    let mut node = Node::boot_single(&dir);
+    let mut admin = Session::new();
+    admin.auth(&node);
+    for d in DBS {
+        admin.send(&node, &format!("create-db {} tok-{}", d, d));
+    }
+    let _ = admin.disconnect(&node);
+    node.pump();
+    let mut tasks: Vec<Box<dyn FnOnce(&crate::sched::TaskCtx) -> Option<usize> + Send>> = vec![];
+    for prog in case.programs.iter() {
+        let prog = prog.clone();
+        let dbs = node.dbs.clone();
+        tasks.push(Box::new(move |t: &crate::sched::TaskCtx| {
+            let (mut client, _rx) = nundb::bo::Client::new_empty_and_receiver();
+            let mut sel: Option<usize> = None;
+            for ev in prog.iter() {
+                t.pause("cmd");
+                match ev {
+                    CEv::Use { db } => {
+                        let r = nundb::process_request::process_request(&format!("use-db {} tok-{}", DBS[*db], DBS[*db]), &dbs, &mut client);
+                        if !is_refusal(&r) {
+                            sel = Some(*db);
+                        }
+                    }
+                    CEv::Disconnect => {
+                        nundb::process_request::process_request("unwatch-all", &dbs, &mut client);
+                        client.left(&dbs);
+                        return None;
+                    }
+                }
+            }
+            // the session stays open: keep its client alive until the verdict (a dropped Client does not count as left)
+            std::mem::forget(client);
+            sel
+        }));
+    }
+    let mut out = Outcome::ok(false);
+    out.classes.push("two-or-three-sessions-interleaved");
+    match crate::sched::run(tasks, &case.schedule, crate::sched::lock_sites) {
+        Err(e) => {
+            eprintln!("C17 concurrent engine: {}", e);
+        }
+        Ok((results, info)) => {
+            let sels: Vec<Option<usize>> = results.into_iter().map(|r| r.unwrap_or(None)).collect();
+            out.nontrivial = info.switches > 0;
+            for (d, name) in DBS.iter().enumerate() {
+                let want = sels.iter().filter(|s| **s == Some(d)).count();
+                let got = count_of(&node, name);
+                // (a database nobody ever selected has no $connections key yet)
+                if got != want.to_string() && !(want == 0 && got == "<none>") {
+                    out.fail = Some(("C17|wrong-count|sessions-interleaved".into(), format!("database {}: $connections is {:?} when everything is quiet, {} session(s) select it now; programs {:?}; trace {:?}", name, got, want, case.programs, info.trace)));
+                    break;
+                }
+            }
+        }
+    }
+    drop(node);
+    ctx.drop_dir(&dir);
+    out
+}
+
 pub fn run(ctx: &Ctx, rep: &mut Report) {
     crate::interpose::virtual_clock(true);
+    let nc = ctx.amount(6000, 200_000);
+    explore(ctx, rep, "sessions-interleaved", nc, ccase_strategy(), |c| run_conc(ctx, c));
+    if !rep.failures.is_empty() {
+        return;
+    }
     let n = ctx.amount(20_000, 400_000);
     explore(ctx, rep, "events", n, prop::collection::vec(ev_strategy(), 1..13).prop_map(|evs| Case { evs }), |c| run_case(ctx, c));
     let alpha = alphabet();
@@ -216,6 +306,10 @@ pub fn run(ctx: &Ctx, rep: &mut Report) {
 }
 
 pub fn replay(ctx: &Ctx, _engine: &str, case: &J) -> Result<Option<(String, String)>, String> {
+    if _engine == "sessions-interleaved" {
+        crate::interpose::virtual_clock(true);
+        return replay_guarded::<CCase>(ctx, case, |c| run_conc(ctx, c));
+    }
     crate::interpose::virtual_clock(true);
     replay_guarded::<Case>(ctx, case, |c| run_case(ctx, c))
 }
